@@ -8,6 +8,7 @@
 #include <unifex/just_from.hpp>
 #include <unifex/then.hpp>
 #include <unifex/stop_if_requested.hpp>
+#include <unifex/tracing/async_stack.hpp>
 using namespace unifex;
 using ex::dyn; using ex::Mode;
 
@@ -218,7 +219,11 @@ VMC_SEQ_HARNESS(coro_script, "C10,C11,C01,C02") {
       for (auto& x : run.log) if (x.rfind("cleanup", 0) == 0) ++seen[x];
       for (auto& kv : seen) if (kv.second != 1) fail("C10", "cleanup-twice", kv.first + " ran " + std::to_string(kv.second) + " times");
     }
-    vmc::note(std::string(1, top.how) + (stop_sent ? "s" : "") + std::to_string(prog.scripts.size()));
+    if (vmcrt::arg(3, 0)) { std::string lg; for (auto& x : run.log) lg += x + ","; vmc::note(g_case + "|" + ctx.trace + "|" + std::string(1, top.how) + std::to_string(top.v) + "|" + lg); }
+    else vmc::note(std::string(1, top.how) + (stop_sent ? "s" : "") + std::to_string(prog.scripts.size()));
+#if !UNIFEX_NO_ASYNC_STACKS
+    if (unifex::tryGetCurrentAsyncStackRoot() != nullptr) fail("C20", "async-stack-root", "an async stack root is still installed on this thread after the task completed");
+#endif
     if (run.locals_alive != 0) fail("C10,C02", "frame-leak", "coroutine locals alive after the task completed: a frame was not destroyed (or destroyed twice): " + std::to_string(run.locals_alive));
     if (run.bad_ctx != 0) fail("C11,C10", "wrong-context", std::to_string(run.bad_ctx) + " resumption(s) of the task body did not happen on the task's scheduler");
     if (top.ctx != run.task_ctx && prog.nleaves > 0 && top.how != '?') {
